@@ -142,3 +142,29 @@ package coroutines
 //@ ensures [C02 C05] err == nil && res.CreateSubscription.Status != t_api.StatusOK ==> cbs_post()
 //@ ensures [C02 C05] err == nil && res.CreateSubscription.Status == t_api.StatusOK && res.CreateSubscription.Promise.State != promise.Pending ==> cbs_post()
 //@ ensures [C02 C05] err == nil && res.CreateSubscription.Status == t_api.StatusOK && res.CreateSubscription.Promise.State == promise.Pending ==> cbs_post()
+
+//@ func TimeoutLocks$1
+//@ props C09
+//@ ghostdb coroutine
+//@ requires c != nil && tags != nil
+
+//@ func TimeoutPromises$1
+//@ props C01 C04 C05 C08
+//@ ghostdb coroutine
+//@ requires c != nil && config != nil && tags != nil
+
+//@ func TimeoutTasks$1
+//@ props C07 C08
+//@ ghostdb coroutine
+//@ requires c != nil && config != nil && tags != nil
+
+//@ func EnqueueTasks$1
+//@ props C07 C08
+//@ ghostdb coroutine
+//@ requires c != nil && config != nil && tags != nil
+
+//@ func SchedulePromises$1
+//@ props C01 C08 C10
+//@ ghostdb coroutine
+//@ overflow C10
+//@ requires c != nil && config != nil && tags != nil
